@@ -4,6 +4,7 @@ Import ListNotations.
 Require Equiv.
 Require Import Stab Spec SpecProofs GF2 Act Gen_GateTable Gen_Simplify GenProofs_Simplify TableAut.
 Require Segs Gen_SimpSegs GenProofs_SimpSegs.
+Require Pauli Sem Refine FrameProg RevProg RevFlow.
 
 (* decomposed(): every per-gate table of the simplifier, regenerated from the source, is the gate: unitary entries compose to
    the documented action with exact signs; measurement entries conjugate the measured observable onto +Z of the measured
@@ -50,3 +51,20 @@ Theorem C13_simplifier_pieces_2q :
   List.concat (Segs.segs2 ps [] []) = ps /\ Forall (fun seg => NoDup (Segs.pvals seg)) (Segs.segs2 ps [] []).
 Proof. exact Segs.simplifier_pieces_2q. Qed.
 Print Assumptions C13_simplifier_cutting_is_the_model. Print Assumptions C13_simplifier_pieces_1q. Print Assumptions C13_simplifier_pieces_2q.
+
+(* Unsigned flows on whole adaptive programs: walking an end observable Send backwards (multiplied by M at flagged measurements,
+   flags toggled by later anticommuting feedback, pulled back through Cliffords) gives S0 with, for every frame F put in front of
+   the program, every earlier flips and every randomisation:
+     [F_end, Send] xor (parity of the flagged flips) = [F, S0] xor (pending toggles . earlier flips) xor (anticommuting external Paulis).
+   A Pauli error before the program changes "Send times the flagged results" exactly when it anticommutes with S0: the circuit has
+   the unsigned flow S0 -> Send xor rec[flags], which is what the reverse tracker behind time reversal and the flow-generator
+   solver computes. *)
+Theorem C13_unsigned_flow_closed_form :
+  forall (n : nat) (extr exta : nat -> bool) (Send : Pauli.pauli), Refine.wf n Send ->
+  forall (prog : list FrameProg.pop) (F : Pauli.pauli) (fl zs d : list bool),
+  Forall (FrameProg.okp n) prog -> Refine.wf n F -> RevFlow.gauge_okf Send prog d ->
+  RevFlow.fparf extr exta Send F fl zs prog d =
+  xorb (xorb (Sem.acom F (fst (RevFlow.btf Send prog d))) (RevProg.dotp (snd (RevFlow.btf Send prog d)) fl))
+       (RevFlow.ext_parf extr exta Send prog d).
+Proof. exact RevFlow.flow_closed_form. Qed.
+Print Assumptions C13_unsigned_flow_closed_form.
